@@ -174,9 +174,10 @@ class Run:
         ev = {"property_id": self.pid, "tier": self.tier, "seed": self.seed, "level": level,
               "coverage": cov, "assumptions": self.assumptions, "wall_s": round(wall, 2),
               "violations": sum(self.vclasses.values())}
-        os.makedirs(EVIDENCE_DIR, exist_ok=True)
-        with open(os.path.join(EVIDENCE_DIR, self.pid + ".json"), "w") as f:
-            json.dump(ev, f, indent=1, ensure_ascii=False, default=str)
+        if not os.environ.get("VERIF_NO_EVIDENCE"):   # set only by tools/mutant.sh (runs against scratch trees)
+            os.makedirs(EVIDENCE_DIR, exist_ok=True)
+            with open(os.path.join(EVIDENCE_DIR, self.pid + ".json"), "w") as f:
+                json.dump(ev, f, indent=1, ensure_ascii=False, default=str)
         print(f"[{self.pid}] tier={self.tier} seed={self.seed} evaluations={cov['evaluations']} "
               f"states={cov['states']} transitions={cov['transitions']} max_depth={cov['max_depth']} "
               f"distinct_obs={len(self.obs)} nontrivial={len(self.nontrivial)} wall={wall:.1f}s")
